@@ -322,8 +322,13 @@ def run(chk: Check) -> None:
                 if len({e[0] for e in evs}) != len(evs):
                     chk.count("model_skipped_duplicate_stamps")
                     continue
+                try:
+                    stamps = ",".join(str(us(gwrig.real_dt.fromisoformat(k))) for k in keys)
+                except ValueError as e:
+                    chk.violation("c16.snapshot.undecodable", f"a snapshot key is not a timestamp: {e}", rep0)
+                    continue
                 reqs.append(f"snap.run\t{inc}\t{line}")
-                impl.append(",".join(str(us(gwrig.real_dt.fromisoformat(k))) for k in keys))
+                impl.append(stamps)
                 meta.append(rep0)
                 for s, v, c, ln, ex, sl in evs:
                     wanted_rows.add((inc, v, c, min(ln, 9), ex))
